@@ -61,4 +61,12 @@ theorem C05_parse_then_walk (cfg : Cfg) (nd : Bool) (input : Bytes) (pj : PJ) (h
   obtain ⟨_, _, _, _, _, _, ⟨ds, hd, _⟩, _⟩ := SJ.ParseWF.parse_wf cfg nd input pj hsz h
   exact ⟨ds, hd⟩
 
+
+open SJ.ParseDefs in
+/-- `Parse` / `ParseND` of the model return a result or an error for every input: the two outcomes "panic" and
+    "does not terminate", which the model can express, do not occur. -/
+theorem C05_parse_total (cfg : Cfg) (nd : Bool) (input : Bytes) : (parseAny cfg nd input).safe = true := by
+  rw [parseAny_eq]
+  cases parseMsg cfg nd (trimSpace input) <;> rfl
+
 end SJ.Properties.C05
